@@ -78,7 +78,8 @@ package transport
 //@   modifies nothing
 //@   ensures len(errs) > 0 ==> err != nil
 //@ func ctxIsDone(ctx context.Context) (done bool)
-//@   trusted
+//@   props C01
+//@   requires ctx != nil
 //@   modifies nothing
 
 // ExchangeContext: at most 7 attempts (a reused connection that fails is retried at most 6 times, a freshly dialled
